@@ -189,6 +189,7 @@ func (b *BloomSearchEngine) IngestRows(ctx context.Context, rows []map[string]an
 	case <-b.stopping:
 		// Stop has begun while this call was waiting for room in the ingest
 		// buffer: the batch was not accepted.
+		verifPoint("ingest.stopping", int64(len(rows)), 0, req)
 		return ErrEngineStopped
 	case <-ctx.Done():
 		verifPoint("ingest.ctxerr", int64(len(rows)), 0, req)
@@ -219,6 +220,7 @@ func (b *BloomSearchEngine) Flush(ctx context.Context) error {
 		// Wait for flush to complete (once committed, let it finish)
 		return <-doneChan
 	case <-b.stopping:
+		verifPoint("ingest.stopping", 0, 1, req)
 		b.stateMu.RUnlock()
 		return ErrEngineStopped
 	case <-ctx.Done():
